@@ -174,6 +174,8 @@ func (in *Interp) equals(T types.Type, x, y value) *Term {
 		}
 	case *HashObj:
 		return c.Bool(x == y)
+	case *PubKeyObj:
+		return c.Bool(x == y)
 	case *BigObj:
 		return c.Bool(x == y)
 	case nil:
@@ -703,6 +705,10 @@ func (in *Interp) doRecover(fr *frame) value {
 }
 
 func (in *Interp) appendOp(s SliceV, t value, fn *ssa.Builtin) value {
+	return in.appendVals(s, t, fn)
+}
+
+func (in *Interp) appendVals(s SliceV, t value, fn *ssa.Builtin) value {
 	c := in.ctx
 	var src SliceV
 	switch x := t.(type) {
@@ -750,7 +756,9 @@ func (in *Interp) appendOp(s SliceV, t value, fn *ssa.Builtin) value {
 		}
 	}
 	var elemT types.Type
-	if sl, ok := fn.Type().(*types.Signature).Params().At(0).Type().Underlying().(*types.Slice); ok {
+	if fn == nil {
+		elemT = types.Typ[types.Uint8]
+	} else if sl, ok := fn.Type().(*types.Signature).Params().At(0).Type().Underlying().(*types.Slice); ok {
 		elemT = sl.Elem()
 	}
 	back := make([]value, ncap)
